@@ -4,6 +4,7 @@ package agentstorage_test
 
 import (
 	"bytes"
+	"errors"
 	"fmt"
 	"io"
 	"os"
@@ -126,12 +127,32 @@ func (c *c03Ctl) gate(name string) int {
 // c03Cads wraps the real store; it only parks the calling writer at the gates.
 type c03Cads struct {
 	*store.CADownloadStore
-	ctl *c03Ctl
+	ctl       *c03Ctl
+	closeFail int32 // 1: the next Close of a download file handle reports an error
 }
 
 func (g *c03Cads) GetDownloadFileReadWriter(name string) (store.FileReadWriter, error) {
 	g.ctl.gate("g1")
-	return g.CADownloadStore.GetDownloadFileReadWriter(name)
+	rw, err := g.CADownloadStore.GetDownloadFileReadWriter(name)
+	if err != nil {
+		return rw, err
+	}
+	return &c03RW{FileReadWriter: rw, cads: g}, nil
+}
+
+// c03RW is the download file handle; its Close really closes the file and then, when a close fault
+// is armed (op `closefail`), reports an error (as a file system that surfaces deferred write errors does).
+type c03RW struct {
+	store.FileReadWriter
+	cads *c03Cads
+}
+
+func (r *c03RW) Close() error {
+	err := r.FileReadWriter.Close()
+	if atomic.CompareAndSwapInt32(&r.cads.closeFail, 1, 0) {
+		return errors.New("verif: injected close error")
+	}
+	return err
 }
 
 func (g *c03Cads) Download() *store.CADownloadStoreScope {
@@ -513,6 +534,13 @@ func c03Exec(tr *verifh.T, c verifh.Case, hold bool) (recs [][2][]string, live [
 			out := "panic"
 			verifh.Protect(func() { out = verifh.Bool(e.t.HasPiece(pi)) })
 			r.op(a, out)
+		case a[0] == "closefail" && len(a) == 1:
+			// the next Close of the download file handle fails (only the gated mode goes through the wrapper)
+			if !e.gated {
+				return
+			}
+			atomic.StoreInt32(&e.gcads.closeFail, 1)
+			r.op(a, "ok")
 		case a[0] == "recreate" && len(a) == 1:
 			// TorrentArchive.DeleteTorrent, then CreateTorrent again: file, sidecars and statuses start over
 			if len(e.live()) > 0 {
@@ -888,6 +916,33 @@ func TestVerif_C03(t *testing.T) {
 		tr.Count("burst_cases", 1)
 		tr.Count("burst_writers", nw)
 	}
+	// (b3) close faults: the download file handle reports an error on Close (which the code ignores: the
+	// bytes were written and verified); every sequence over a small alphabet, observed after every op
+	for _, sh := range []shape{{3, 2}, {5, 2}} {
+		blob := c03Blob(sh.n)
+		np := c03NumPieces(blob, sh.pl)
+		alpha := [][]string{{"op", "closefail"}, {"op", "reopen"}}
+		for i := 0; i < np; i++ {
+			alpha = append(alpha, c03Write(i, c03Payload(blob, sh.pl, i, "correct", nil)))
+		}
+		alpha = append(alpha, c03Write(0, c03Payload(blob, sh.pl, 0, "corrupt", nil)))
+		depth := verifh.Scale(4, 6)
+		if np > 2 {
+			depth = verifh.Scale(3, 5)
+		}
+		var rec func(prefix [][]string, d int)
+		rec = func(prefix [][]string, d int) {
+			if d == 0 {
+				c03Exec(tr, verifh.Case{Cfg: c03CfgG(blob, sh.pl, true, 0, c03Coarse), Ops: c03WithObs(prefix)}, false)
+				tr.Count("closefault_cases", 1)
+				return
+			}
+			for _, o := range alpha {
+				rec(append(prefix[:len(prefix):len(prefix)], o), d-1)
+			}
+		}
+		rec(nil, depth)
+	}
 	// (c) random histories: sequential and gated mixes, random blobs and piece lengths
 	r := verifh.NewRand(verifh.Seed(), "c03")
 	kinds := []string{"correct", "correct", "correct", "corrupt", "short", "long", "empty", "other", "random"}
@@ -933,6 +988,9 @@ func TestVerif_C03(t *testing.T) {
 			case x < 18:
 				ops = append(ops, []string{"op", "read", strconv.Itoa(idx())}, []string{"op", "has", strconv.Itoa(idx())},
 					[]string{"op", "plen", strconv.Itoa(idx())})
+			case gated && x < 19 && r.Chance(1, 3):
+				ops = append(ops, []string{"op", "closefail"})
+				tr.Count("random_closefail", 1)
 			case x < 19:
 				if r.Chance(1, 4) {
 					ops = append(ops, []string{"op", "recreate"})
